@@ -4,7 +4,7 @@ Static argument: a consumer that registers-then-re-checks (or checks and registe
 the lock the producer takes) and a producer that publishes-then-notifies cannot lose a
 wake-up under any interleaving. The rules check that every site has that shape.
 """
-from rdv.core import (CheckBroken, Origins, Pos, primary_edges, call_matches, callee_res, strip_generics, switch_edges,
+from rdv.core import (CheckBroken, Origins, Pos, primary_edges, call_matches, callee_res, norm_path, strip_generics, switch_edges,
                       term_has, term_leaves, term_str)
 
 CONFIGS = ['default']
@@ -530,3 +530,67 @@ def run(rep, facts, tier):
     # the completion signal of waiting for acknowledgments: a lost reader or an ACKNACK reaches the waiter, completion notifies (decided under C20; C13 names this signal too)
     from rdv import report as _report
     _report.borrow(rep, facts, tier, 'C20', {'R20.3': 'R13.8'})
+    rule_13_9(rep, fx)
+
+
+def rule_13_9(rep, fx):
+    """"Did this step move us forward?" compares the frontier after the step with a snapshot from before it (added after seed C13g: the snapshot taken after the range part of a GAP
+    had been applied; the second Reader of a topic, for which the shared marker does not move any more, then skipped its notification and stayed parked with a sample available)."""
+    rep.rule('R13.9', 'before means before: wherever a Reader decides to notify on all_ackable_before() > <earlier all_ackable_before()>, the earlier value is taken before every call '
+                      'that changes the writer proxy before the later value is read (no path from such a call to the snapshot)')
+    WP = 'rtps::rtps_writer_proxy::RtpsWriterProxy::'
+    n = 0
+    bodies = [b for b in fx.bodies if b.key.startswith('rtps::reader::Reader::') and b.kind in ('fn', 'assoc_fn', 'closure')]
+    for b in bodies:
+        og = Origins(b, summaries=False)
+        pairs = []
+        for s_, t_, c, lab in switch_edges(b, fx, og):
+            if c[0] == 'call' and c[1].rsplit('::', 1)[-1] in ('gt', 'lt', 'ge', 'le') and len(c[2]) == 2:
+                x, y = c[2]
+                cx = [z for z in _subterms13(x) if z[0] == 'call' and z[1].endswith('all_ackable_before')]
+                cy = [z for z in _subterms13(y) if z[0] == 'call' and z[1].endswith('all_ackable_before')]
+                if len(cx) == 1 and len(cy) == 1 and len(cx[0]) > 3 and len(cy[0]) > 3 and cx[0][3] != cy[0][3]:
+                    m = c[1].rsplit('::', 1)[-1]
+                    later, earlier = (cx[0], cy[0]) if m in ('gt', 'ge') else (cy[0], cx[0])
+                    pairs.append((earlier[3], later[3], s_))
+        if not pairs:
+            continue
+        rep.analysed(b)
+        P = Pos(b)
+        muts = []
+        for bb, t in b.calls():
+            c = callee_res(t)
+            if c.startswith(WP) and not c.endswith('all_ackable_before'):
+                try:
+                    k = fx.find(norm_path(c))
+                    if str(k.locals[1]).startswith('&mut'):
+                        muts.append((bb, 'term'))
+                except Exception:
+                    pass
+        for earlier, later, cmp_bb in sorted(set(pairs)):
+            n += 1
+            # the step: updates of the writer proxy that lie before the later reading (calls after it, e.g. the ACKNACK counter, belong to what follows)
+            step = [mp for mp in muts if P.can_reach(mp, (later, 'term'))]
+            ok = bool(step) and (earlier, 'term') != (later, 'term')
+            for mp in step:
+                if P.can_reach(mp, (earlier, 'term')):
+                    ok = False
+            rep.check(ok, 'R13.9', '%s/snapshot-before-the-step' % b.key.replace('rtps::reader::Reader::', ''), 'earlier frontier read before every writer-proxy update of the step',
+                      '%s decides whether to notify its DataReader by comparing all_ackable_before() with an earlier value that is not taken before every update of the writer proxy '
+                      'in this step: progress made by part of the step is not seen, the notification is skipped whenever the shared '
+                      'marker was already moved by another Reader of the topic, and that DataReader stays parked with a sample available' % b.key, b.where())
+    rep.floor('R13.9', n, 3, 'before / after comparisons of all_ackable_before() in rtps::reader')
+
+
+def _subterms13(t):
+    out = [t]
+    if isinstance(t, tuple):
+        for x in t[1:]:
+            if isinstance(x, tuple):
+                if x and isinstance(x[0], str):
+                    out.extend(_subterms13(x))
+                else:
+                    for y in x:
+                        if isinstance(y, tuple):
+                            out.extend(_subterms13(y))
+    return out
